@@ -156,6 +156,11 @@ func Attrs(r *rand.Rand, legacy bool) *message.Attributes {
 				a.Exts[names[r.Intn(len(names))]] = ExtVal(r, 2)
 			}
 		}
+		// ... also on a set that goes out in the older format (which carries no extension map): what the requester token
+		// says comes from the user and host attributes
+		if legacy && r.Intn(3) == 0 {
+			a.Exts[[]string{"req", "REQ", "Req", "SSHClientVersion", "HardKey"}[r.Intn(5)]] = []any{"mallory@evil", "root@" + CleanStr(r, 4), "9.9", "true"}[r.Intn(4)]
+		}
 		if r.Intn(40) == 0 {
 			for i := 300 + r.Intn(700); i > 0; i-- {
 				a.Exts["k"+strconv.Itoa(i)] = ExtVal(r, 1)
